@@ -178,6 +178,42 @@ fn seq_part(ctx: &mut Ctx) {
     }
 }
 
+/// "the serial advances instead of a number being re-issued": the ids handed out at the start of an id epoch and the
+/// same ids after the next wrap must differ in their serial. The middle of the epoch (a million allocations) is skipped
+/// by moving the id counter with the test accessor, exactly as the position setter does for every other run.
+fn epoch_windows(ctx: &mut Ctx) {
+    for ser0 in [0u64, 5, 0xffff_fffe, 0xffff_ffff, 0x1_0000_0000, 0x1_0000_0001, 0x2_0000_0005, 0xffff_ffff_0000_0000, u64::MAX - 3] {
+        let a = mk(1, ser0, 9);
+        let mut keys: Vec<u64> = vec![];
+        let mut trace = vec![];
+        let mut ok = true;
+        for round in 0..3 {
+            for _ in 0..6 {
+                match call(&a) {
+                    Res::Ok(i, s, _) => {
+                        keys.push(((i as u64) << 32) | s as u64);
+                        trace.push(format!("{}.{}", i, s));
+                    }
+                    _ => ok = false, // the debug-profile overflow panic near u64::MAX is modelled elsewhere
+                }
+            }
+            if round < 2 {
+                // skip to the end of this epoch
+                a.next_id_test_only().store(MAXP - 2, Ordering::SeqCst);
+                trace.push("|skip-to-end-of-epoch|".into());
+            }
+        }
+        ctx.count("epoch_window_runs");
+        if ok {
+            let mut k = keys.clone();
+            k.sort_unstable();
+            if k.windows(2).any(|w| w[0] == w[1]) {
+                ctx.fail("c16-dup-pid", &format!("from next_id=1 next_serial={}: {}", ser0, trace.join(" ")));
+            }
+        }
+    }
+}
+
 /// sequential mixes of allocate and set_creation
 fn ops_part(ctx: &mut Ctx) {
     let rounds = ctx.n(150, 3000);
@@ -426,6 +462,7 @@ fn ref_part(ctx: &mut Ctx) {
 
 pub fn run(ctx: &mut Ctx) {
     seq_part(ctx);
+    epoch_windows(ctx);
     ops_part(ctx);
     thread_part(ctx);
     ref_part(ctx);
